@@ -568,6 +568,9 @@ func parse3dExtension(r *bits.EBSPReader) (*D3Extension, error) {
 					depthMaxValue := (1 << (ext.BitDepthForDepthLayersMinus8 + 8)) - 1
 					for j := 0; j <= depthMaxValue; j++ {
 						layer.DltValueFlag = append(layer.DltValueFlag, r.ReadFlag())
+						if r.AccError() != nil { // Don't go on for up to 2^23 values after end of data
+							return nil, r.AccError()
+						}
 					}
 				} else {
 					var err error
@@ -607,6 +610,9 @@ func parseDeltaDlt(r *bits.EBSPReader, BitDepthForDepthLayers int) (*DeltaDlt, e
 				// length of delta_val_diff_minus_min[ k ] syntax element is Ceil( Log2( max_diff − minDiff + 1 ) ) bits
 				dd.DeltaValDiffMinusMin =
 					append(dd.DeltaValDiffMinusMin, r.Read(bits.CeilLog2(dd.MaxDiff-(dd.MinDiffMinus1+1)+1)))
+				if r.AccError() != nil { // Don't go on for up to 2^23 values after end of data
+					return nil, r.AccError()
+				}
 			}
 		}
 	}
